@@ -235,7 +235,7 @@ VERUS = {
                    desc='RawTable::shrink_to on extracted text against the contracts of capacity_to_buckets (proved in the same unit), with_capacity, resize and drop_inner_table: no element lost, never enlarges, empty + 0 frees the allocation, capacity() >= max(len, min(m, previous)), bucket count at most the one capacity_to_buckets gives for max(len, m); the unreachable_unchecked() after the infallible resize is dead',
                    paired={}),
     'glue': dict(props=['C01', 'C06', 'C14', 'C10', 'C13', 'C04', 'C11'], tier='quick',
-                 desc='RawTable::insert, insert_in_slot, insert_no_grow, erase_no_drop, erase, remove and replace_bucket_with on extracted text against the contracts of find_insert_slot, reserve, record_item_insert_at, erase and set_ctrl (all proved in unit ctrl): remove / erase are exactly an erase of the bucket and hand back that bucket as the free slot; replace_bucket_with either restores control bytes, mirror byte, items and growth_left exactly (closure returned Some) or is exactly an erase (None); the scope-guard closure of clone_from_impl (what runs when T::clone panics), extracted from inside the real function: exactly the FULL buckets below the progress index -- the clones made so far -- are dropped, each once, and nothing else; the slot handed to insert_in_slot is an EMPTY/DELETED bucket of the table as it is AFTER any reserve, an EMPTY bucket is consumed only while growth is left, mirror invariant and item count maintained',
+                 desc='RawTable::insert, insert_in_slot, insert_no_grow, erase_no_drop, erase, remove, remove_entry (nothing found: untouched; found: exactly one erase), get (a reference only to the element of a FULL bucket) and replace_bucket_with on extracted text against the contracts of find_insert_slot, reserve, record_item_insert_at, erase and set_ctrl (all proved in unit ctrl): remove / erase are exactly an erase of the bucket and hand back that bucket as the free slot; replace_bucket_with either restores control bytes, mirror byte, items and growth_left exactly (closure returned Some) or is exactly an erase (None); the scope-guard closure of clone_from_impl (what runs when T::clone panics), extracted from inside the real function: exactly the FULL buckets below the progress index -- the clones made so far -- are dropped, each once, and nothing else; the slot handed to insert_in_slot is an EMPTY/DELETED bucket of the table as it is AFTER any reserve, an EMPTY bucket is consumed only while growth is left, mirror invariant and item count maintained',
                  paired={}),
     'grow': dict(props=['C13', 'C08', 'C12'], tier='quick',
                  desc='reserve_rehash_inner, RawTable::reserve, RawTable::try_reserve and RawTableInner::with_capacity on extracted text against the contracts of rehash_in_place, resize_inner and fallible_with_capacity (the hint::unreachable_unchecked() calls are proved dead): success gives room and loses nothing, tombstones are reclaimed in place exactly when len+additional <= capacity/2, otherwise growth to at least max(len+additional, capacity+1), errors only in fallible mode with nothing changed, unrepresentable requests reported; plus the churn lemma L6: every growth step the contract allows, with at most m live elements and additional = 1, lands on at most max(16, 5(m+1)) buckets, so along any insert/remove history buckets <= max(initial, that bound)',
